@@ -801,6 +801,13 @@ func (e *Env) call(x *ECall) (Val, types.Type) {
 			return e.fail("final(%s): no such local variable in scope at this return", id.Name)
 		}
 		return v, ty
+	case "listened":
+		// listened(ch): the most recent `select` executed by this function had a case (send or receive) on the non-nil channel ch
+		v, ty := arg(0)
+		if _, ok := ty.Underlying().(*types.Chan); !ok {
+			return e.fail("listened() needs a channel")
+		}
+		return Val{T: fmt.Sprintf("(select %s %s)", t.get(e.st, t.chanListenedVar(ty).Name), v.T)}, tBool
 	case "drained":
 		// drained(ch): the most recent channel operation of this function on ch was a non-blocking select with a
 		// receive case on ch that took its default branch (the queue was seen empty and nothing was sent since)
